@@ -162,12 +162,12 @@ Others(vias, items, pl) == {Plan("extras", 0, 0, {"distinct"}, pl, vias, {"plain
 
 PlanQuick ==
   { Seg(0, 2, {"distinct"}, AllPl, {"doc"}, {"plain"}, TRUE),                 \* every segmentation with <= 2 cuts, everywhere
-    Seg(3, 3, {"distinct"}, {"body"}, {"doc"}, {"plain"}, TRUE),              \* every segmentation with 3 cuts
+    Seg(3, 3, {"distinct"}, {"body"}, {"doc"}, {"plain"}, FALSE),             \* every segmentation with 3 cuts
     Seg(0, 1, {"distinct"}, AllPl, {"doc"}, AllCls \ {"plain"}, FALSE),       \* value classes x placement
-    Seg(1, 2, {"same", "alt", "none"}, {"body", "cell"}, {"doc"}, {"plain"}, FALSE),
+    Seg(1, 2, {"same", "alt", "none"}, {"body"}, {"doc"}, {"plain"}, FALSE),  \* runs that share / lack formatting
     Seg(0, 0, {"none"}, {"body", "header", "footer"}, {"doc"}, AllCls, TRUE), \* header/footer made by AddHeader/AddFooter
-    Seg(0, 1, {"distinct"}, AllPl, {"open", "file"}, {"plain"}, TRUE) }       \* the other ways to make a template
-  \cup Others({"doc", "open", "file"}, 3, AllPl)
+    Seg(0, 1, {"distinct"}, AllPl, {"open", "file"}, {"plain"}, FALSE) }      \* the other ways to make a template
+  \cup Others({"doc", "file"}, 3, AllPl)
 PlanThorough ==
   { Seg(0, 3, {"distinct"}, AllPl, {"doc"}, {"plain"}, TRUE),
     Seg(0, 2, {"distinct"}, AllPl, {"doc"}, AllCls \ {"plain"}, FALSE),
